@@ -16,6 +16,12 @@
  *   push c V | pushat c i V | pop c | popat c i | get c i | set c i V | rem c V | mem c V | len x
  *   mset m K V | mget m K | mrem m K | mmem m K | items c | ritems c | sort c | copy d c | concat c c2 | resize c n
  *   eq a b | cmp a b | vset x V | exc k | nest k1 k2
+ *   nvr d V | nvo d V            value objects made by new_raw / new_root (deleted with del_raw / del_root)
+ *   ed x SEL EDIT                an in-place edit of a String (asg: also Int) object of ANY allocation class it is defined on:
+ *        SEL  = self (the object behind handle x) | at i (get(x, $I(i)) of an Array/List: an element embedded in the container)
+ *             | it i (the i-th object handed out by iteration) | val K (get(m, K) of a Table/Tree) | key K (the embedded key equal to K,
+ *               found by iteration; only edits that leave its value unchanged are in contract)
+ *        EDIT = cat sT | app sT | res n | asg V | fmt p sT (print_to(x, p, "%s", $S(T))) | rem sT | look sT (look_from(x, $S("\"T\""), 0))
  *   (transcript only) hash x | show x | fmt p x | flt a b | range a b c | slice c k | rev c | zip c c2 | filter c k | map c k
  *                     | enum c | gc
  *   (transcript only, ignored by the model) heap Tuples of copies of value objects, in their own slots 0..MAXT-1; the items are
@@ -23,6 +29,11 @@
  *                     tnew t T x* | tpush t x | tpushat t i x | tpop t | tpopat t i | tget t i | tset t i x | titems t | tritems t
  *                     | tlen t | tsort t | tmem t x | trem t x | tcat t x* | tresize t n | tcmp t t2 | thash t | tdrop t | tdel t
  *                     probe t v q* | preset t   (method-cache probe types, see below)     ring n seed churn   (Boxes owning each other)
+ *   (transcript only) nested holders 0..MAXN-1: a container whose ELEMENTS are containers (or Tuples), edited in place through get():
+ *                     xnew n OUTER INNER   OUTER = a Array | l List | t Table Int-> | r Tree Int->    INNER = A Array of Int | L List of Int
+ *                                          | U Tuple (items: built-in Type objects, by index 0..9, no object twice)
+ *                     xadd n k | xpush n k v | xpop n k | xpopat n k j | xset n k j v | xcat n k v* | xres n k m | xget n k j | xshow n
+ *                     | xrem n k | xdel n | xdrop n
  *   (O lines, modelled: Cello/Config.lean namespace Keep) keep programs — holders 0..MAXH-1 that are the sole path to managed objects:
  *                     hnew h kind | hput h k id pay | hget h k | hread h | hrem h k | hrel h k | hshrink h n | hreserve h n
  *                     | hchurn m | hdrop h | hdel h        (see "keep programs" below)
@@ -44,13 +55,13 @@
 /* ------------------------------------------------------------------------------------------------ shadow (direct oracle) */
 typedef struct { int isstr; long long i; char s[40]; } SV;
 enum { K_NONE = 0, K_VAL, K_ARRAY, K_LIST, K_TABLE, K_TREE, K_TUPLE };
-typedef struct { int kind; int et; int vt; SV* xs; SV* ys; size_t n, cap; } SH;
+typedef struct { int kind; int et; int vt; SV* xs; SV* ys; size_t n, cap; int mode; } SH;   /* mode: 0 new, 1 new_raw, 2 new_root */
 static SH sh[MAXSLOT];
 static var* S;              /* the live handles: an array in main's frame (the collector scans the stack) */
 static var* TS;             /* heap Tuples (transcript-only part), also in main's frame */
 static SH tsh[MAXT];        /* their shadows: kind K_TUPLE, et, xs = values of the items in order */
 static size_t cur_line = 0;
-static size_t n_exec = 0, n_ooc = 0, n_bad = 0, n_x = 0;
+static size_t n_exec = 0, n_ooc = 0, n_bad = 0, n_x = 0, n_ed = 0, n_ed_elem = 0, n_nested = 0;
 
 static void XF(const char* what, const char* a, const char* b) {
   n_x++;
@@ -120,7 +131,7 @@ static long sh_find(const SH* h, const SV* v) {
 }
 static void sh_copy(SH* d, const SH* s) {
   memset(d, 0, sizeof *d);
-  d->kind = s->kind; d->et = s->et; d->vt = s->vt;
+  d->kind = s->kind; d->et = s->et; d->vt = s->vt; d->mode = 0;
   sh_reserve(d, s->n ? s->n : 1);
   memcpy(d->xs, s->xs, s->n * sizeof(SV)); memcpy(d->ys, s->ys, s->n * sizeof(SV)); d->n = s->n;
 }
@@ -479,6 +490,53 @@ static __attribute__((noinline)) void k_delete_all(int h) {
 }
 static int k_cmp_idx(const void* a, const void* b) { long long x = kk_[*(const int*)a], y = kk_[*(const int*)b]; return x < y ? -1 : x > y; }
 
+
+static void del_by_mode(var x, int mode) { if (mode == 1) del_raw(x); else if (mode == 2) del_root(x); else del(x); }
+
+/* ------------------------------------------------------------------------------------------------ nested holders
+ * A container whose elements are themselves containers (Array of Int, List of Int) or Tuples, all embedded in the outer container's
+ * storage (allocation class AllocData): every edit goes through get(outer, key) and works on the embedded object in place. */
+#define MAXN 8
+#define XMAXE 12
+#define XMAXI 24
+typedef struct { int outer, inner, n; long long key[XMAXE]; int m[XMAXE]; long long it[XMAXE][XMAXI]; } XH;
+static XH xh[MAXN];
+static var* NS;                    /* the nested holders: an array in main's frame */
+static var x_type(long long i) {
+  switch (i) { case 0: return Int; case 1: return String; case 2: return Float; case 3: return Array; case 4: return List;
+               case 5: return Table; case 6: return Tree; case 7: return Tuple; case 8: return Ref; default: return Box; }
+}
+static long long x_type_index(var t) { for (long long i = 0; i < 10; i++) if (x_type(i) == t) return i; return -1; }
+static int x_isseq(int outer) { return outer == 'a' || outer == 'l'; }
+static int x_pos(XH* h, long long k) {
+  if (x_isseq(h->outer)) return (k >= 0 && k < h->n) ? (int)k : -1;
+  for (int i = 0; i < h->n; i++) if (h->key[i] == k) return i;
+  return -1;
+}
+static var x_inner(int n, int pos) { XH* h = &xh[n]; return get(NS[n], $I(x_isseq(h->outer) ? (long long)pos : h->key[pos])); }
+static long long x_item(XH* h, var item) { return h->inner == 'U' ? x_type_index(item) : (long long)c_int(item); }
+static int x_has(XH* h, int pos, long long v) { for (int j = 0; j < h->m[pos]; j++) if (h->it[pos][j] == v) return 1; return 0; }
+/* library contents against the shadow, inner containers in shadow order; for sequences also the order of iteration over the outer one */
+static void x_check(int n, const char* after) {
+  XH* h = &xh[n]; size_t l1 = 0, l2 = 0; char e[64], w[96]; buf1[0] = 0; buf2[0] = 0;
+  for (int i = 0; i < h->n; i++) {
+    var inr = x_inner(n, i);
+    snprintf(e, sizeof e, "%s%lld:[", i ? " " : "", x_isseq(h->outer) ? (long long)i : h->key[i]); app(buf1, &l1, e); app(buf2, &l2, e);
+    int first = 1;
+    foreach (x in inr) { snprintf(e, sizeof e, "%s%lld", first ? "" : ",", x_item(h, x)); first = 0; app(buf1, &l1, e); }
+    for (int j = 0; j < h->m[i]; j++) { snprintf(e, sizeof e, "%s%lld", j ? "," : "", h->it[i][j]); app(buf2, &l2, e); }
+    snprintf(e, sizeof e, "]#%zu", len(inr)); app(buf1, &l1, e);
+    snprintf(e, sizeof e, "]#%d", h->m[i]); app(buf2, &l2, e);
+  }
+  if (strcmp(buf1, buf2)) { snprintf(w, sizeof w, "nested-contents-after-%s", after); XF(w, buf1, buf2); }
+  if (len(NS[n]) != (size_t)h->n) { snprintf(w, sizeof w, "nested-len-after-%s", after); XF(w, "", ""); }
+  if (x_isseq(h->outer)) {
+    int i = 0;
+    foreach (inr in NS[n]) { if (i < h->n && len(inr) != (size_t)h->m[i]) { snprintf(w, sizeof w, "nested-iter-after-%s", after); XF(w, "", ""); } i++; }
+    if (i != h->n) { snprintf(w, sizeof w, "nested-iter-count-after-%s", after); XF(w, "", ""); }
+  }
+}
+
 static const char* FMTS_INT[] = { "%li", "[%5li|%-5li]", "%lx", "%lX", "%lo", "%+li", "%03li", "%c" };
 static const char* FMTS_STR[] = { "%s", "[%8s|%-8s]", "%.2s", "<%s>%%" };
 
@@ -497,13 +555,18 @@ static void run_op(int nt, char** t) {
   const char* op = t[0];
   int a, b; SV v, k; long long n; var exc = NULL; char e1[128], e2[128];
   /* ---------------- constructors */
-  if (!strcmp(op, "nv")) {
+  if (!strcmp(op, "nv") || !strcmp(op, "nvr") || !strcmp(op, "nvo")) {
     if (nt != 3 || !parse_slot(t[1], &a) || !parse_sv(t[2], &v)) BAD();
     if (LIVE(a)) OOC();
     n_exec++;
-    V_TRY(exc, S[a] = v.isstr ? (var)new(String, $S(v.s)) : (var)new(Int, $I(v.i)));
+    int mode = op[2] == 'r' ? 1 : op[2] == 'o' ? 2 : 0;
+    V_TRY(exc, {
+      if (mode == 0) S[a] = v.isstr ? (var)new(String, $S(v.s)) : (var)new(Int, $I(v.i));
+      else if (mode == 1) S[a] = v.isstr ? (var)new_raw(String, $S(v.s)) : (var)new_raw(Int, $I(v.i));
+      else S[a] = v.isstr ? (var)new_root(String, $S(v.s)) : (var)new_root(Int, $I(v.i));
+    });
     if (exc) { unexpected(exc); O("err %s", v_exc_name(exc)); return; }
-    sh[a].kind = K_VAL; sh[a].et = v.isstr; sh_reserve(&sh[a], 1); sh[a].xs[0] = v; sh[a].n = 1;
+    sh[a].kind = K_VAL; sh[a].et = v.isstr; sh_reserve(&sh[a], 1); sh[a].xs[0] = v; sh[a].n = 1; sh[a].mode = mode;
     O("ok"); check_obj(a, "nv"); return;
   }
   if (!strcmp(op, "na") || !strcmp(op, "nl")) {
@@ -545,7 +608,7 @@ static void run_op(int nt, char** t) {
     if (nt != 2 || !parse_slot(t[1], &a)) BAD();
     if (!LIVE(a)) OOC();
     n_exec++;
-    if (op[1] == 'e') { V_TRY(exc, del(S[a])); if (exc) { unexpected(exc); } }
+    if (op[1] == 'e') { V_TRY(exc, del_by_mode(S[a], sh[a].mode)); if (exc) { unexpected(exc); } }
     S[a] = NULL; sh_free(&sh[a]);
     O("ok"); return;
   }
@@ -777,6 +840,79 @@ static void run_op(int nt, char** t) {
     if (exc) { unexpected(exc); O("err %s", v_exc_name(exc)); return; }
     sh[a].xs[0] = v;
     O("ok"); check_obj(a, op); return;
+  }
+  /* ---------------- in-place edits of String / Int objects of every allocation class they are defined on */
+  if (!strcmp(op, "ed")) {
+    enum { SEL_SELF, SEL_AT, SEL_IT, SEL_VAL, SEL_KEY } sel; int e0;        /* e0: first token of the edit */
+    long long si = 0; SV sk;
+    if (nt < 3 || !parse_slot(t[1], &a)) BAD();
+    if (!strcmp(t[2], "self")) { sel = SEL_SELF; e0 = 3; }
+    else if (!strcmp(t[2], "at") || !strcmp(t[2], "it")) { sel = t[2][0] == 'a' ? SEL_AT : SEL_IT; if (nt < 4 || !parse_int(t[3], &si)) BAD(); e0 = 4; }
+    else if (!strcmp(t[2], "val") || !strcmp(t[2], "key")) { sel = t[2][0] == 'v' ? SEL_VAL : SEL_KEY; if (nt < 4 || !parse_sv(t[3], &sk)) BAD(); e0 = 4; }
+    else BAD();
+    enum { E_CAT, E_APP, E_RES, E_ASG, E_FMT, E_REM, E_LOOK } ek; long long en = 0; SV ev; memset(&ev, 0, sizeof ev);
+    int na = nt - e0;
+    if (na < 1) BAD();
+    const char* en_ = t[e0];
+    if (!strcmp(en_, "cat") || !strcmp(en_, "app") || !strcmp(en_, "rem") || !strcmp(en_, "look")) {
+      ek = en_[0] == 'c' ? E_CAT : en_[0] == 'a' ? E_APP : en_[0] == 'r' ? E_REM : E_LOOK;
+      if (na != 2 || !parse_sv(t[e0 + 1], &ev) || !ev.isstr) BAD();
+    } else if (!strcmp(en_, "res")) { ek = E_RES; if (na != 2 || !parse_int(t[e0 + 1], &en)) BAD(); }
+    else if (!strcmp(en_, "asg")) { ek = E_ASG; if (na != 2 || !parse_sv(t[e0 + 1], &ev)) BAD(); }
+    else if (!strcmp(en_, "fmt")) { ek = E_FMT; if (na != 3 || !parse_int(t[e0 + 1], &en) || !parse_sv(t[e0 + 2], &ev) || !ev.isstr) BAD(); }
+    else BAD();
+    /* the target, in the shadow */
+    if (!LIVE(a)) OOC();
+    SV* tv = NULL; long pos = -1;
+    switch (sel) {
+      case SEL_SELF: if (sh[a].kind != K_VAL) OOC(); tv = &sh[a].xs[0]; break;
+      case SEL_AT: { if (!is_seq(a)) OOC(); long long L = (long long)sh[a].n, i = si < 0 ? L + si : si; if (i < 0 || i >= L) OOC(); pos = (long)i; tv = &sh[a].xs[i]; } break;
+      case SEL_IT: if (!is_seq(a) || si < 0 || si >= (long long)sh[a].n) OOC(); pos = (long)si; tv = &sh[a].xs[si]; break;
+      case SEL_VAL: case SEL_KEY:
+        if (!is_map(a) || sk.isstr != sh[a].et) OOC();
+        pos = sh_find(&sh[a], &sk); if (pos < 0) OOC();
+        tv = sel == SEL_VAL ? &sh[a].ys[pos] : &sh[a].xs[pos]; break;
+    }
+    /* is the edit defined on it; the value afterwards */
+    SV nv = *tv;
+    if (ek == E_ASG) { if (ev.isstr != tv->isstr) OOC(); nv = ev; }
+    else {
+      if (!tv->isstr) OOC();
+      size_t L = strlen(tv->s), T = strlen(ev.s);
+      switch (ek) {
+        case E_CAT: case E_APP: if (L + T > 30) OOC(); strcat(nv.s, ev.s); break;
+        case E_RES: if (en < 0 || en > 30) OOC(); if ((size_t)en <= L) nv.s[en] = 0; break;      /* growing adds NUL bytes only */
+        case E_FMT: if (en < 0 || (size_t)en > L || (size_t)en + T > 30) OOC(); nv.s[en] = 0; strcat(nv.s, ev.s); break;
+        case E_REM: { char* q = strstr(nv.s, ev.s); if (!q) OOC(); memmove(q, q + T, strlen(q + T) + 1); } break;
+        case E_LOOK: strcpy(nv.s, ev.s); break;
+        default: break;
+      }
+    }
+    if (sel == SEL_KEY && !sv_eq(&nv, tv)) OOC();            /* a key may only be rewritten with its own value */
+    n_exec++; n_ed++; if (sel != SEL_SELF) n_ed_elem++;
+    char lk[40];
+    V_TRY(exc, {
+      var x = NULL;
+      switch (sel) {
+        case SEL_SELF: x = S[a]; break;
+        case SEL_AT: x = get(S[a], $I(si)); break;
+        case SEL_IT: { x = iter_init(S[a]); for (long long j = 0; j < si; j++) x = iter_next(S[a], x); } break;
+        case SEL_VAL: x = get(S[a], MK(sk)); break;
+        case SEL_KEY: { foreach (kk in S[a]) { if (eq(kk, MK(sk))) { x = kk; break; } } } break;
+      }
+      switch (ek) {
+        case E_CAT: concat(x, $S(ev.s)); break;
+        case E_APP: append(x, $S(ev.s)); break;
+        case E_RES: resize(x, (size_t)en); break;
+        case E_ASG: assign(x, MK(ev)); break;
+        case E_FMT: { int r = print_to(x, (int)en, "%s", $S(ev.s)); if (r != (int)(en + (long long)strlen(ev.s))) XF("ed-print_to-position", "", ""); } break;
+        case E_REM: rem(x, $S(ev.s)); break;
+        case E_LOOK: { snprintf(lk, sizeof lk, "\"%s\"", ev.s); int r = look_from(x, $S(lk), 0); if (r != (int)strlen(lk)) XF("ed-look_from-position", "", ""); } break;
+      }
+    });
+    if (exc) { unexpected(exc); O("err %s", v_exc_name(exc)); return; }
+    *tv = nv;
+    O("ok"); check_obj(a, "ed"); return;
   }
   /* ---------------- exceptions (raised and caught by the workload itself) */
   if (!strcmp(op, "exc")) {
@@ -1046,6 +1182,149 @@ static void run_op(int nt, char** t) {
     fprintf(vout, "T %s ok\n", op); check_tuple(a, op); return;
   }
 
+  /* ---------------- nested holders: containers (and Tuples) embedded in containers, edited in place through get() (transcript only) */
+  if (op[0] == 'x' && (!strcmp(op, "xnew") || !strcmp(op, "xadd") || !strcmp(op, "xpush") || !strcmp(op, "xpop") || !strcmp(op, "xpopat")
+      || !strcmp(op, "xset") || !strcmp(op, "xcat") || !strcmp(op, "xres") || !strcmp(op, "xget") || !strcmp(op, "xshow") || !strcmp(op, "xrem")
+      || !strcmp(op, "xdel") || !strcmp(op, "xdrop"))) {
+    int n_ = 0; long long k = 0, j = 0, v_ = 0; long long vs[MAXTOK]; int cnt = 0;
+    if (nt < 2 || !parse_slot(t[1], &n_) || n_ >= MAXN) BAD();
+    if (!strcmp(op, "xnew")) { if (nt != 4 || strlen(t[2]) != 1 || !strchr("altr", t[2][0]) || strlen(t[3]) != 1 || !strchr("ALU", t[3][0])) BAD(); }
+    else if (!strcmp(op, "xshow") || !strcmp(op, "xdel") || !strcmp(op, "xdrop")) { if (nt != 2) BAD(); }
+    else if (!strcmp(op, "xadd") || !strcmp(op, "xpop") || !strcmp(op, "xrem")) { if (nt != 3 || !parse_int(t[2], &k)) BAD(); }
+    else if (!strcmp(op, "xpush") || !strcmp(op, "xpopat") || !strcmp(op, "xres") || !strcmp(op, "xget")) { if (nt != 4 || !parse_int(t[2], &k) || !parse_int(t[3], &j)) BAD(); v_ = j; }
+    else if (!strcmp(op, "xset")) { if (nt != 5 || !parse_int(t[2], &k) || !parse_int(t[3], &j) || !parse_int(t[4], &v_)) BAD(); }
+    else { if (nt < 3 || !parse_int(t[2], &k)) BAD(); cnt = nt - 3; for (int i = 0; i < cnt; i++) if (!parse_int(t[3 + i], &vs[i])) BAD(); }
+    XH* h = &xh[n_];
+    if (!strcmp(op, "xnew")) {
+      if (h->outer) TOOC();
+      n_exec++; n_nested++;
+      int ou = t[2][0]; int ik = t[3][0];
+      var ity = ik == 'A' ? Array : ik == 'L' ? List : Tuple;
+      V_TRY(exc, {
+        switch (ou) {
+          case 'a': NS[n_] = new(Array, ity); break;
+          case 'l': NS[n_] = new(List, ity); break;
+          case 't': NS[n_] = new(Table, Int, ity); break;
+          default:  NS[n_] = new(Tree, Int, ity); break;
+        }
+      });
+      if (exc) { unexpected(exc); return; }
+      memset(h, 0, sizeof *h); h->outer = ou; h->inner = ik;
+      fprintf(vout, "T xnew ok\n"); x_check(n_, op); return;
+    }
+    if (!h->outer) TOOC();
+    if (!strcmp(op, "xshow")) {
+      n_exec++; n_nested++;
+      V_TRY(exc, x_check(n_, op));
+      if (exc) { unexpected(exc); return; }
+      fprintf(vout, "T xshow n=%d %s\n", h->n, buf1); return;
+    }
+    if (!strcmp(op, "xdel") || !strcmp(op, "xdrop")) {
+      n_exec++; n_nested++;
+      if (op[2] == 'e') { V_TRY(exc, del(NS[n_])); if (exc) { unexpected(exc); return; } }
+      NS[n_] = NULL; memset(h, 0, sizeof *h);
+      fprintf(vout, "T %s ok\n", op); return;
+    }
+    if (!strcmp(op, "xadd")) {
+      if (h->n >= XMAXE) TOOC();
+      if (x_isseq(h->outer)) { if (k < 0 || k > h->n) TOOC(); }
+      else if (k < -1000000 || k > 1000000 || x_pos(h, k) >= 0) TOOC();
+      n_exec++; n_nested++;
+      var tarr[1] = { Terminal };
+      V_TRY(exc, {
+        var src = h->inner == 'A' ? (var)new(Array, Int) : h->inner == 'L' ? (var)new(List, Int) : (var)$(Tuple, tarr);
+        if (!x_isseq(h->outer)) set(NS[n_], $I(k), src);
+        else if (k == h->n) push(NS[n_], src);
+        else push_at(NS[n_], src, $I(k));
+        if (h->inner != 'U') del(src);
+      });
+      if (exc) { unexpected(exc); return; }
+      int at = x_isseq(h->outer) ? (int)k : h->n;
+      memmove(&h->key[at + 1], &h->key[at], (h->n - at) * sizeof h->key[0]);
+      memmove(&h->m[at + 1], &h->m[at], (h->n - at) * sizeof h->m[0]);
+      memmove(&h->it[at + 1], &h->it[at], (h->n - at) * sizeof h->it[0]);
+      h->key[at] = k; h->m[at] = 0; h->n++;
+      fprintf(vout, "T xadd ok\n"); x_check(n_, op); return;
+    }
+    int pos = x_pos(h, k);
+    if (pos < 0) TOOC();
+    if (!strcmp(op, "xrem")) {
+      n_exec++; n_nested++;
+      V_TRY(exc, { if (x_isseq(h->outer)) pop_at(NS[n_], $I(k)); else rem(NS[n_], $I(k)); });
+      if (exc) { unexpected(exc); return; }
+      memmove(&h->key[pos], &h->key[pos + 1], (h->n - pos - 1) * sizeof h->key[0]);
+      memmove(&h->m[pos], &h->m[pos + 1], (h->n - pos - 1) * sizeof h->m[0]);
+      memmove(&h->it[pos], &h->it[pos + 1], (h->n - pos - 1) * sizeof h->it[0]);
+      h->n--;
+      fprintf(vout, "T xrem ok\n"); x_check(n_, op); return;
+    }
+    int m = h->m[pos];
+    int isU = h->inner == 'U';
+    #define XVAL_OK(x) (isU ? ((x) >= 0 && (x) < 10 && !x_has(h, pos, (x))) : ((x) >= -1000000 && (x) <= 1000000))
+    #define XMK(x) (isU ? x_type(x) : (var)$I(x))
+    if (!strcmp(op, "xpush")) {
+      if (m >= XMAXI || !XVAL_OK(v_)) TOOC();
+      n_exec++; n_nested++;
+      V_TRY(exc, push(x_inner(n_, pos), XMK(v_)));
+      if (exc) { unexpected(exc); return; }
+      h->it[pos][m] = v_; h->m[pos]++;
+    } else if (!strcmp(op, "xpop")) {
+      if (m == 0) TOOC();
+      n_exec++; n_nested++;
+      V_TRY(exc, pop(x_inner(n_, pos)));
+      if (exc) { unexpected(exc); return; }
+      h->m[pos]--;
+    } else if (!strcmp(op, "xpopat") || !strcmp(op, "xget")) {
+      long long jj = j < 0 ? m + j : j;
+      if (jj < 0 || jj >= m) TOOC();
+      n_exec++; n_nested++;
+      if (op[1] == 'g') {
+        long long r = 0;
+        V_TRY(exc, r = x_item(h, get(x_inner(n_, pos), $I(j))));
+        if (exc) { unexpected(exc); return; }
+        if (r != h->it[pos][jj]) { snprintf(e1, sizeof e1, "%lld", r); snprintf(e2, sizeof e2, "%lld", h->it[pos][jj]); XF("xget", e1, e2); }
+        fprintf(vout, "T xget %lld\n", r); return;
+      }
+      V_TRY(exc, pop_at(x_inner(n_, pos), $I(j)));
+      if (exc) { unexpected(exc); return; }
+      memmove(&h->it[pos][jj], &h->it[pos][jj + 1], (m - jj - 1) * sizeof(long long)); h->m[pos]--;
+    } else if (!strcmp(op, "xset")) {
+      long long jj = j < 0 ? m + j : j;
+      if (jj < 0 || jj >= m) TOOC();
+      if (isU ? !(v_ >= 0 && v_ < 10 && (!x_has(h, pos, v_) || h->it[pos][jj] == v_)) : !XVAL_OK(v_)) TOOC();
+      n_exec++; n_nested++;
+      V_TRY(exc, set(x_inner(n_, pos), $I(j), XMK(v_)));
+      if (exc) { unexpected(exc); return; }
+      h->it[pos][jj] = v_;
+    } else if (!strcmp(op, "xres")) {
+      if (v_ < 0 || v_ >= m) TOOC();                    /* shrinking only: Tuple_Resize refuses n >= len, growing leaves unconstructed items */
+      n_exec++; n_nested++;
+      V_TRY(exc, resize(x_inner(n_, pos), (size_t)v_));
+      if (exc) { unexpected(exc); return; }
+      h->m[pos] = (int)v_;
+    } else {  /* xcat */
+      if (m + cnt > XMAXI) TOOC();
+      for (int i = 0; i < cnt; i++) { if (!XVAL_OK(vs[i])) TOOC(); if (isU) for (int q = 0; q < i; q++) if (vs[q] == vs[i]) TOOC(); }
+      n_exec++; n_nested++;
+      var args[MAXTOK + 1];
+      static var xb[MAXTOK][(sizeof(struct Header) + sizeof(struct Int)) / sizeof(var)];
+      for (int i = 0; i < cnt; i++) {
+        if (isU) { args[i] = x_type(vs[i]); continue; }
+        memset(xb[i], 0, sizeof xb[i]);
+        var o = header_init(xb[i], Int, AllocStack); ((struct Int*)o)->val = vs[i]; args[i] = o;
+      }
+      args[cnt] = Terminal;
+      V_TRY(exc, concat(x_inner(n_, pos), $(Tuple, args)));
+      if (exc) { unexpected(exc); return; }
+      for (int i = 0; i < cnt; i++) h->it[pos][m + i] = vs[i];
+      h->m[pos] += cnt;
+    }
+    #undef XVAL_OK
+    #undef XMK
+    fprintf(vout, "T %s ok\n", op);
+    V_TRY(exc, x_check(n_, op)); if (exc) unexpected(exc);
+    return;
+  }
   /* ---------------- method-cache probes and owning rings (transcript only) */
   if (!strcmp(op, "preset")) {
     if (nt != 2 || !parse_slot(t[1], &a) || a >= 3) BAD();
@@ -1274,6 +1553,7 @@ static void run_op(int nt, char** t) {
     /* every live handle must be intact after a collection */
     for (int s = 0; s < MAXSLOT; s++) if (LIVE(s)) check_obj(s, "gc");
     for (int s = 0; s < MAXT; s++) if (tsh[s].kind == K_TUPLE) check_tuple(s, "gc");
+    for (int s = 0; s < MAXN; s++) if (xh[s].outer) x_check(s, "gc");
     return;
   }
   BAD();
@@ -1285,6 +1565,7 @@ int main(int argc, char** argv) {
   var slots[MAXSLOT]; memset(slots, 0, sizeof slots); S = slots;
   var tslots[MAXT]; memset(tslots, 0, sizeof tslots); TS = tslots;
   var hslots[MAXH]; memset(hslots, 0, sizeof hslots); HH = hslots;
+  var nslots_[MAXN]; memset(nslots_, 0, sizeof nslots_); NS = nslots_;
   size_t n; char** lines = v_read_lines(argv[1], &n);
   I("cfg=%s opt=%s header=%zu cache=%d", VCFG, VOPT, sizeof(struct Header), (int)CELLO_CACHE_NUM);
   for (size_t li = 0; li < n; li++) {
@@ -1298,12 +1579,18 @@ int main(int argc, char** argv) {
   }
   /* teardown: the workload deletes what it created (nothing is freed for it under CELLO_NGC) */
   size_t live = 0;
-  for (int s = 0; s < MAXSLOT; s++) if (LIVE(s)) { live++; check_obj(s, "end"); var exc; V_TRY(exc, del(S[s])); if (exc) unexpected(exc); S[s] = NULL; sh_free(&sh[s]); }
+  for (int s = 0; s < MAXSLOT; s++) if (LIVE(s)) { live++; check_obj(s, "end"); var exc; V_TRY(exc, del_by_mode(S[s], sh[s].mode)); if (exc) unexpected(exc); S[s] = NULL; sh_free(&sh[s]); }
   size_t tlive = 0;
   for (int s = 0; s < MAXT; s++) if (tsh[s].kind == K_TUPLE) {
     tlive++; check_tuple(s, "end");
     var exc; V_TRY(exc, { foreach (x in TS[s]) { del(x); } del(TS[s]); }); if (exc) unexpected(exc);
     TS[s] = NULL; sh_free(&tsh[s]);
+  }
+  size_t nlive = 0;
+  for (int s = 0; s < MAXN; s++) if (xh[s].outer) {
+    nlive++;
+    var exc; V_TRY(exc, { x_check(s, "end"); del(NS[s]); }); if (exc) unexpected(exc);
+    NS[s] = NULL; memset(&xh[s], 0, sizeof xh[s]);
   }
   size_t hlive = 0;
   k_audit("end");
@@ -1313,7 +1600,7 @@ int main(int argc, char** argv) {
   }
   k_audit("teardown");
   O("end live=%zu holders=%zu", live, hlive);
-  fprintf(vout, "T end tuples=%zu\n", tlive);
-  I("executed=%zu out-of-contract=%zu bad=%zu oracle-failures=%zu keep-ops=%zu keep-reads=%zu high-slot-entries-read=%zu tracked=%d", n_exec, n_ooc, n_bad, n_x, n_keep, n_keep_reads, n_high, led_top);
+  fprintf(vout, "T end tuples=%zu nested=%zu\n", tlive, nlive);
+  I("executed=%zu out-of-contract=%zu bad=%zu oracle-failures=%zu keep-ops=%zu keep-reads=%zu high-slot-entries-read=%zu tracked=%d edits=%zu elem-edits=%zu nested-ops=%zu", n_exec, n_ooc, n_bad, n_x, n_keep, n_keep_reads, n_high, led_top, n_ed, n_ed_elem, n_nested);
   return 0;
 }
